@@ -12,6 +12,8 @@ import (
 
 	"github.com/youchainhq/go-youchain/common"
 	"github.com/youchainhq/go-youchain/consensus"
+	"github.com/youchainhq/go-youchain/crypto"
+	secp256k1VRF "github.com/youchainhq/go-youchain/crypto/vrf/secp256k1"
 	"github.com/youchainhq/go-youchain/params"
 )
 
@@ -52,4 +54,39 @@ func (w *VerifC04Server) VerifyPriority(pub *ecdsa.PublicKey, data *ConsensusCom
 // VerifySortition is the real Server.verifySortition (the VerifySortitionFn of the Voter).
 func (w *VerifC04Server) VerifySortition(pub *ecdsa.PublicKey, data *SortitionData, lb params.LookBackType) error {
 	return w.S.verifySortition(pub, data, lb)
+}
+
+// ---- the live prover path: SortitionManager (credential cache) ----------------------------------------------------
+
+// NewSortitionManager builds the node's SortitionManager exactly as Server.StartMining does: on the Server's REAL
+// getLookbackStakeInfo / getLookBackSeed, for the validator key sk.
+func (w *VerifC04Server) NewSortitionManager(sk *ecdsa.PrivateKey) (*SortitionManager, error) {
+	vrfSk, err := secp256k1VRF.NewVRFSigner(sk)
+	if err != nil {
+		return nil, err
+	}
+	return NewSortitionManager(vrfSk, w.S.getLookbackStakeInfo, w.S.getLookBackSeed, crypto.PubkeyToAddress(sk.PublicKey)), nil
+}
+
+// VerifIsProposer is the real SortitionManager.isProposer.
+func (sm *SortitionManager) VerifIsProposer(round *big.Int, roundIndex uint32) (bool, *StepView) {
+	return sm.isProposer(round, roundIndex)
+}
+
+// VerifIsValidator is the real SortitionManager.isValidator.
+func (sm *SortitionManager) VerifIsValidator(round *big.Int, roundIndex uint32, step uint32, lbType params.LookBackType) (bool, *StepView) {
+	return sm.isValidator(round, roundIndex, step, lbType)
+}
+
+// StakeInfo / Seed / ValidatorsCount are the Server's real look-back readers (what the manager and the verifiers read).
+func (w *VerifC04Server) StakeInfo(round *big.Int, addr common.Address, isProposer bool, lb params.LookBackType) (stake, total *big.Int, threshold uint64, kind params.ValidatorKind, status uint8, err error) {
+	return w.S.getLookbackStakeInfo(round, addr, isProposer, lb)
+}
+
+func (w *VerifC04Server) Seed(round *big.Int, lb params.LookBackType) (common.Hash, error) {
+	return w.S.getLookBackSeed(round, lb)
+}
+
+func (w *VerifC04Server) ValidatorsCount(round *big.Int, kind params.ValidatorKind, lb params.LookBackType) uint64 {
+	return w.S.getLookbackValidatorsCount(round, kind, lb)
 }
